@@ -85,14 +85,14 @@ func mkTable(r *hutil.Rng, variant int, sepKeys bool) table {
 	switch variant {
 	case 0:
 		t.name, t.auto, t.pk = "t_acc", true, []int{0}
-		t.cols = []ColMeta{{"id", "int", false}, {"userName", "str", true}, {"age", "int", false}, {"Score", "int", true}}
-		t.ddl = "CREATE TABLE t_acc (id BIGINT NOT NULL AUTO_INCREMENT, userName VARCHAR(32) DEFAULT NULL, age INT NOT NULL DEFAULT 0, Score BIGINT DEFAULT NULL, PRIMARY KEY (id))"
+		t.cols = []ColMeta{{"id", "int", false}, {"userName", "str", true}, {"user_id", "int", false}, {"Score", "int", true}}
+		t.ddl = "CREATE TABLE t_acc (id BIGINT NOT NULL AUTO_INCREMENT, userName VARCHAR(32) DEFAULT NULL, user_id INT NOT NULL DEFAULT 0, Score BIGINT DEFAULT NULL, PRIMARY KEY (id))" // user_id: a column whose name CONTAINS the key's name
 		for i := 1; i <= n; i++ {
 			sc := "NULL"
 			if r.Chance(2, 3) {
 				sc = strconv.Itoa(r.Intn(50))
 			}
-			t.setup = append(t.setup, fmt.Sprintf("INSERT INTO t_acc (id,userName,age,Score) VALUES (%d,'%s',%d,%s)", i, str(r.Intn(5)), r.Intn(50), sc))
+			t.setup = append(t.setup, fmt.Sprintf("INSERT INTO t_acc (id,userName,user_id,Score) VALUES (%d,'%s',%d,%s)", i, str(r.Intn(5)), r.Intn(50), sc))
 		}
 	case 1:
 		t.name, t.pk = "t_item", []int{0}
@@ -100,6 +100,9 @@ func mkTable(r *hutil.Rng, variant int, sepKeys bool) table {
 		t.ddl = "CREATE TABLE t_item (code VARCHAR(16) NOT NULL, Qty INT NOT NULL DEFAULT 0, note VARCHAR(32) DEFAULT NULL, PRIMARY KEY (code))"
 		for i := 1; i <= n; i++ {
 			code := "c" + strconv.Itoa(i)
+			if i%3 == 0 {
+				code += " " // a VARCHAR key value that ends in a blank
+			}
 			if sepKeys && i%2 == 0 {
 				code = "c_" + strconv.Itoa(i)
 			}
